@@ -58,7 +58,7 @@ void NAME(T *state, unsigned char *out, size_t outlen) \
     __CPROVER_assert(state->mode <= 1 && state->count < (state->mode ? (ROUT) : (RIN)), #NAME " precondition: count/mode in range"); \
     __CPROVER_assert(outlen <= STUB_MAX_LEN && (outlen == 0 || __CPROVER_w_ok(out, outlen)), #NAME " precondition: writable output of outlen bytes"); \
     STUB_LOAD(sp, state); \
-    if (outlen <= VERIF_CONTENT_MAX) \
+    if ((const void *)out != stub_long_buf && outlen <= VERIF_CONTENT_MAX) \
         sp = spec_sponge_squeeze_v(&PARAMS, sp, out, outlen); \
     else { \
         stub_squeeze_log.count++; stub_squeeze_log.buf = out; stub_squeeze_log.len = outlen; \
